@@ -111,7 +111,7 @@ impl Transport for Mem {
                     let block = Bytes::from(vec![b'x'; 4096]);
                     let u2 = url.clone();
                     return Ok(futures::stream::iter(v)
-                        .chain(futures::stream::repeat_with(move || Ok(block.clone())).take(ENDLESS_CAP / 4096))
+                        .chain(futures::stream::repeat_with(move || Ok(block.clone())).take(ENDLESS_CAP / 16 / 4096)) // target streams: 2 MiB (signed lengths are at most 64 KiB; every chunk is observed)
                         .chain(futures::stream::once(async move { Err(TransportError::new(TransportErrorKind::Other, u2)) }))
                         .map(|x| {
                             observe();
